@@ -1,36 +1,38 @@
 /-
-  Completeness of the stack AIR on honest rows: operations that can fail or whose result is not a
-  polynomial of the operands (see `Props/C03Air.lean`).
+  Completeness of the stack AIR on honest rows: operations that can fail, and operations whose
+  results come from memory, the advice provider or the hasher (the stack AIR pins the cells they leave
+  alone; see `Props/C03Air.lean`).
 -/
 import Miden.Lemmas.HonestAir2
 namespace Miden.C03
 open Miden Miden.Air Miden.Vm
 
+set_option maxHeartbeats 1000000 in
 theorem honest_push (v : Nat) (vm vm' : Vm) (hl : 16 ≤ vm.stack.length) (h : vm.step (.push v) = .ok vm') :
     HonestHolds vm vm' (.push v) := by honest_tac
 
+set_option maxHeartbeats 1000000 in
 theorem honest_assert (code : Nat) (vm vm' : Vm) (hl : 16 ≤ vm.stack.length) (h : vm.step (.assert code) = .ok vm') :
     HonestHolds vm vm' (.assert code) := by honest_tac_split
 
+set_option maxHeartbeats 1000000 in
 theorem honest_fmpupdate (vm vm' : Vm) (hl : 16 ≤ vm.stack.length) (h : vm.step .fmpupdate = .ok vm') :
     HonestHolds vm vm' .fmpupdate := by honest_tac_split
 
+set_option maxHeartbeats 1000000 in
 theorem honest_advpop (vm vm' : Vm) (hl : 16 ≤ vm.stack.length) (h : vm.step .advpop = .ok vm') :
     HonestHolds vm vm' .advpop := by honest_tac_split
 
-theorem honest_advpopw (vm vm' : Vm) (hl : 16 ≤ vm.stack.length) (h : vm.step .advpopw = .ok vm') :
-    HonestHolds vm vm' .advpopw := by honest_tac_split
+set_option maxHeartbeats 1000000 in
+theorem honest_caller (vm vm' : Vm) (hl : 16 ≤ vm.stack.length) (h : vm.step .caller = .ok vm') :
+    HonestHolds vm vm' .caller := by honest_tac_split
 
+set_option maxHeartbeats 1000000 in
 theorem honest_mload (vm vm' : Vm) (hl : 16 ≤ vm.stack.length) (h : vm.step .mload = .ok vm') :
-    HonestHolds vm vm' .mload := by honest_tac_split
+    HonestHolds vm vm' .mload := by honest_tac_addr x0
 
+set_option maxHeartbeats 1000000 in
 theorem honest_mloadw (vm vm' : Vm) (hl : 16 ≤ vm.stack.length) (h : vm.step .mloadw = .ok vm') :
-    HonestHolds vm vm' .mloadw := by honest_tac_split
-
-theorem honest_mstore (vm vm' : Vm) (hl : 16 ≤ vm.stack.length) (h : vm.step .mstore = .ok vm') :
-    HonestHolds vm vm' .mstore := by honest_tac_split
-
-theorem honest_mstorew (vm vm' : Vm) (hl : 16 ≤ vm.stack.length) (h : vm.step .mstorew = .ok vm') :
-    HonestHolds vm vm' .mstorew := by honest_tac_split
+    HonestHolds vm vm' .mloadw := by honest_tac_addr x0
 
 end Miden.C03
